@@ -382,6 +382,9 @@ impl Payload {
                     (format!("set-colliding{n}"), format!("let v_src = range({n}).to_array();\nfn v_mk()->Set<int>{{ set((v_x: int)->{{v_x % 8}}, (v_a: int, v_b: int)->{{v_a == v_b}}).update(v_src) }}"), 8 * n),
                     (format!("set-native{n}"), format!("let v_src = range({n}).to_array();\nfn v_mk()->Set<int>{{ set<int>().update(v_src) }}"), 8 * n),
                     (format!("mapping-colliding{n}"), format!("let v_src = range({n}).to_array();\nfn v_mk()->Mapping<int, int>{{ mapping((v_x: int)->{{v_x % 8}}, (v_a: int, v_b: int)->{{v_a == v_b}}).update(v_src.to_generator().map((v_x: int)->{{(v_x, v_x)}})) }}"), 16 * n),
+                    (format!("chain-of-many-parts{n}"), format!("let v_src = [1, 2, 3];\nfn v_mk()->Sequence<int>{{ range({n}).reduce(v_src, (v_acc: Sequence<int>, v_i: int)->{{ v_acc + v_src }}) }}"), 8 * n),
+                    (format!("stack-from-sequence{n}"), format!("let v_src = range({n}).to_array();\nfn v_mk()->Stack<int>{{ v_src.to_stack() }}"), 8 * n),
+                    (format!("array-from-generator{n}"), format!("let v_src = range({n}).to_array();\nfn v_mk()->Sequence<int>{{ v_src.to_generator().to_array() }}"), 8 * n),
                     (format!("array-of-shared{n}"), format!("let v_src = range({n}).to_array();\nfn v_mk()->Sequence<int>{{ v_src.map((v_x: int)->{{v_x}}).to_array() }}"), 8 * n),
                 ]
             } else {
